@@ -234,6 +234,29 @@ Fixpoint strip_trailing (l : list nat) : list nat :=
   end.
 Definition label_token (prefix name : list nat) (width : nat) : list nat := strip_trailing (label_text prefix name width).
 
+(* the prefix of every kind of column and the number of characters its name is padded/cut to, as written by the
+   write_traj_label functions (cv_width = en_width = 21; a scalar variable) *)
+Definition col_prefix (c : col) : list nat :=
+  match c with
+  | CVal _ => [] | CExt _ => [114; 95]%nat (* r_ *) | CVel _ => [118; 95]%nat (* v_ *) | CVelExt _ => [118; 114; 95]%nat (* vr_ *)
+  | CEp _ => [69; 112; 95]%nat (* Ep_ *) | CEk _ => [69; 107; 95]%nat (* Ek_ *) | CFt _ => [102; 116; 95]%nat (* ft_ *)
+  | CFa _ => [102; 97; 95]%nat (* fa_ *) | CBiasE _ => [69; 95]%nat (* E_ *) | CCenter _ _ => [120; 48; 95]%nat (* x0_ *)
+  | CWork _ => [87; 95]%nat (* W_ *) | CRef _ _ => [114; 101; 102; 95]%nat (* ref_ *)
+  | CCoupling _ _ => [70; 111; 114; 99; 101; 67; 111; 110; 115; 116; 95]%nat (* ForceConst_ *)
+  | CGrad _ _ => [71; 114; 97; 100; 95]%nat (* Grad_ *)
+  end.
+(* which object's name follows the prefix: a variable (inl) or a bias (inr); the alb coupling column is followed by
+   the index of the variable in the bias instead *)
+Definition col_object (c : col) : Z + Z :=
+  match c with
+  | CVal v | CExt v | CVel v | CVelExt v | CEp v | CEk v | CFt v | CFa v => inl v
+  | CCenter _ v | CRef _ v | CGrad _ v | CCoupling _ v => inl v
+  | CBiasE b | CWork b => inr b
+  end.
+(* the text of a label: prefix ++ wrap_string(name, 21 - length prefix) *)
+Definition col_label (vname bname : Z -> list nat) (c : col) : list nat :=
+  label_token (col_prefix c) (match col_object c with inl v => vname v | inr b => bname b end) 21%nat.
+
 (* ---- which other files a step writes (colvarmodule::calc, colvarproxy::post_run) ------------------ *)
 (* FState: the state file (its `step` field is the step at which it is written); FColvar: the output files of the
    variables (correlation functions); FBias b: the output files of bias b (histograms, PMFs, ...). The output
